@@ -115,8 +115,12 @@ def run(ctx, H):
             ct = "application/json"
             if r < 0.12:
                 body = ctx.rng.choice([body[:-1], body + "]", "", "{", "nul", body.replace(":", "=", 1), "\ufeff" + body, "[1,]"])   # malformed
-            elif r < 0.22:
-                ct = ctx.rng.choice([None, "text/plain", "application/x-www-form-urlencoded", "application/jsonx", "application/json; charset=utf-8", "application/vnd.api+json"])
+            elif r < 0.30:
+                ct = ctx.rng.choice([None, "text/plain", "application/x-www-form-urlencoded", "application/jsonx", "application/json; charset=utf-8", "application/vnd.api+json",
+                                     # suffix types with parameters, case, spacing, and headers the mime crate refuses to parse
+                                     "application/ld+json; charset=utf-8", "application/problem+json;charset=utf-8", "APPLICATION/JSON", "Application/Vnd.Api+Json ; q=1",
+                                     "application/json;charset=UTF-8;x=y", "application/+json", "application/json;;", " application/json", "application/json ", "text/json",
+                                     "application/x+json+xml", "application/json+x", "json", "application/", "*/*", "application/*+json", "multipart/form-data; boundary=x"])
             cfg = None
             if ctx.rng.random() < 0.3:
                 # an application-level web::JsonConfig (payload limit, accepted content type, optional content type, custom error handler)
